@@ -534,6 +534,9 @@ MOTIFS = [
     # a space inheriting from the child of another space
     [["new_space", "-", "A", []], ["new_space", "A", "X", []], ["new_cells", "A.X", "f", F(0, 1)],
      ["set_ref", "A.X", "s", 7], ["new_space", "-", "D", ["A.X"]], ["new_cells", "D", "g", F(1, 1, "f")]],
+    # a name of a model-level reference defined in the later of two bases
+    [["new_space", "-", "A", []], ["new_space", "-", "B", []], ["set_ref", "B", "r", 1],
+     ["new_space", "-", "C", ["A", "B"]], ["new_cells", "C", "f", F(2, 1, "f", "r")]],
     # chain of three spaces with overrides
     [["new_space", "-", "A", []], ["new_cells", "A", "f", F(0, 1)], ["new_cells", "A", "g", F(1, 1, "f")],
      ["new_space", "-", "B", ["A"]], ["new_space", "-", "C", ["B"]], ["set_formula", "B", "f", F(0, 2)]],
